@@ -1,0 +1,258 @@
+//go:build verif
+
+package graph
+
+// Contracts for govc (the VC generator under /verif). Comment-only: this file compiles to nothing
+// with or without the "verif" build tag. Every line starting with //@ is contract text.
+//
+// Abstract view of a DependencyGraph g:  N = dom(g.nodes),  E = g.edges (key -> sequence of keys).
+//
+//@ pred wf(g *DependencyGraph) = g != nil && g.nodes != nil && g.edges != nil && g.cycleCache != nil
+//@   && (forall k NodeKey :: k in g.edges ==> k in g.nodes)
+//@   && (forall k NodeKey, i int :: k in g.edges && 0 <= i && i < len(g.edges[k]) ==> g.edges[k][i] in g.nodes)
+//@   && (forall k NodeKey :: k in g.nodes ==> g.nodes[k] != nil && g.nodes[k].Key == k)
+//
+// Interface methods of graph.Provider are observers: deterministic, no effect on the graph.
+//@ func Provider.GetType
+//@   nocheck
+//@   pure
+//@ func Provider.GetKey
+//@   nocheck
+//@   pure
+//@ func Provider.GetGroup
+//@   nocheck
+//@   pure
+//@ func Provider.GetDependencies
+//@   nocheck
+//@   pure
+//
+//@ func DependencyGraph.Size
+//@   requires wf: wf(g)
+//@   ensures[C19] size: result == len(g.nodes)
+//@   ensures[C19] unchanged: g.nodes == old(g.nodes) && g.edges == old(g.edges) && wf(g)
+//
+//@ func DependencyGraph.HasNode
+//@   requires wf: wf(g)
+//@   ensures[C19] member: result <==> (mk("NodeKey", serviceType, key, group) in g.nodes)
+//
+//@ func DependencyGraph.GetNode
+//@   requires wf: wf(g)
+//@   ensures[C19] present: (mk("NodeKey", serviceType, key, group) in g.nodes) ==> result == g.nodes[mk("NodeKey", serviceType, key, group)] && result != nil
+//@   ensures[C19] absent: !(mk("NodeKey", serviceType, key, group) in g.nodes) ==> result == nil
+//
+//@ func DependencyGraph.Clear
+//@   requires wf: g != nil
+//@   ensures[C19] empty: len(g.nodes) == 0 && (forall k NodeKey :: !(k in g.nodes) && !(k in g.edges))
+//@   ensures[C19] caches_invalidated: g.sortedNodesDirty && g.cycleCacheDirty && isnil(g.sortedNodes)
+//@   ensures[C19] wf: wf(g)
+//
+//@ pred keyOf(p Provider) = mk("NodeKey", pure("Provider.GetType", p), pure("Provider.GetKey", p), pure("Provider.GetGroup", p))
+//@ pred depKey(d *reflection.Dependency) = mk("NodeKey", d.Type, d.Key, d.Group)
+//@ pred depsOf(p Provider) = pure("Provider.GetDependencies", p)
+//
+//@ func DependencyGraph.AddProviderDeferred
+//@   requires wf: wf(g)
+//@   requires deps_nonnil: forall i int :: 0 <= i && i < len(depsOf(provider)) ==> depsOf(provider)[i] != nil
+//@   ensures[C19] nil_rejected: provider == nil ==> result != nil && g.nodes == old(g.nodes) && g.edges == old(g.edges) && wf(g)
+//@   ensures[C19] accepted: provider != nil ==> result == nil
+//@   ensures[C19,C05] node_added: provider != nil ==> keyOf(provider) in g.nodes && g.nodes[keyOf(provider)].Provider == provider
+//@   ensures[C19,C05] nodes_exact: provider != nil ==> (forall j NodeKey :: j in g.nodes <==> (old(j in g.nodes) || j == keyOf(provider)
+//@        || (exists i int :: 0 <= i && i < len(depsOf(provider)) && j == depKey(depsOf(provider)[i]))))
+//@   ensures[C19,C05,C06] edges_set: provider != nil && len(depsOf(provider)) > 0 ==> keyOf(provider) in g.edges
+//@        && len(g.edges[keyOf(provider)]) == len(depsOf(provider))
+//@        && (forall i int :: 0 <= i && i < len(depsOf(provider)) ==> g.edges[keyOf(provider)][i] == depKey(depsOf(provider)[i]))
+//@   ensures[C19] replace_no_deps: provider != nil && len(depsOf(provider)) == 0 ==> !(keyOf(provider) in g.edges) || len(g.edges[keyOf(provider)]) == 0
+//@   ensures[C19,C05] other_edges_kept: forall j NodeKey :: provider != nil && j != keyOf(provider) ==> ((j in g.edges) <==> old(j in g.edges)) && g.edges[j] == old(g.edges[j])
+//@   ensures[C19,C05,C06] caches_invalidated: provider != nil ==> g.sortedNodesDirty && g.cycleCacheDirty
+//@   ensures[C19] wf: wf(g)
+//@   loop 1
+//@     invariant len_deps: len(dependencies) == idx && !isnil(dependencies)
+//@     invariant deps_prefix: forall i int :: 0 <= i && i < idx ==> dependencies[i] == depKey(providerDeps[i])
+//@     invariant nodes_grow: forall j NodeKey :: old(j in g.nodes) ==> j in g.nodes
+//@     invariant self_in: nodeKey in g.nodes && g.nodes[nodeKey] == node && g.nodes != nil && g.nodes == old(g.nodes)
+//@     invariant deps_in: forall i int :: 0 <= i && i < idx ==> depKey(providerDeps[i]) in g.nodes
+//@     invariant nodes_only: forall j NodeKey :: j in g.nodes ==> (old(j in g.nodes) || j == nodeKey
+//@        || (exists i int :: 0 <= i && i < idx && j == depKey(providerDeps[i])))
+//@     invariant s3: forall j NodeKey :: j in g.nodes ==> g.nodes[j] != nil && g.nodes[j].Key == j
+//@     invariant provider_set: node.Provider == provider
+//
+// occurs(x, s): x is an element of the sequence s
+//@ pred occurs(x NodeKey, s []NodeKey) = exists i int :: 0 <= i && i < len(s) && s[i] == x
+//@ pred s3(g *DependencyGraph) = forall k NodeKey :: k in g.nodes ==> g.nodes[k] != nil && g.nodes[k].Key == k
+//
+// updateDegrees recomputes the derived per-node fields from E.
+//@ func DependencyGraph.updateDegrees
+//@   requires maps: g != nil && g.nodes != nil && g.edges != nil
+//@   requires s3: s3(g)
+//@   modifies Node.InDegree, Node.OutDegree, Node.Dependents, Node.Dependencies
+//@   ensures[C19,C06] deps_mirror_edges: forall k NodeKey, i int :: k in g.edges && k in g.nodes ==> len(g.nodes[k].Dependencies) == len(g.edges[k])
+//@        && (0 <= i && i < len(g.edges[k]) ==> g.nodes[k].Dependencies[i] == g.edges[k][i])
+//@   ensures[C19,C06] outdegree: forall k NodeKey :: k in g.nodes ==> g.nodes[k].OutDegree == ite(k in g.edges, len(g.edges[k]), 0)
+//@   ensures[C19] deps_kept: forall k NodeKey :: k in g.nodes && !(k in g.edges) ==> g.nodes[k].Dependencies == old(g.nodes[k].Dependencies)
+//@   ensures[C19,C06] indegree: forall k NodeKey :: k in g.nodes ==> g.nodes[k].InDegree == len(g.nodes[k].Dependents)
+//@   ensures[C19,C06] dependents_sound: forall k NodeKey, i int :: k in g.nodes && 0 <= i && i < len(g.nodes[k].Dependents) ==>
+//@        (g.nodes[k].Dependents[i] in g.edges) && (g.nodes[k].Dependents[i] in g.nodes) && occurs(k, g.edges[g.nodes[k].Dependents[i]])
+//@   ensures[C19,C06] dependents_complete: forall f NodeKey, i int :: f in g.edges && f in g.nodes && 0 <= i && i < len(g.edges[f]) && (g.edges[f][i] in g.nodes)
+//@        ==> occurs(f, g.nodes[g.edges[f][i]].Dependents)
+//@   loop 1
+//@     invariant reset: forall k NodeKey :: k in g.nodes && seen[k] ==> g.nodes[k].InDegree == 0 && g.nodes[k].OutDegree == 0 && len(g.nodes[k].Dependents) == 0
+//@     invariant deps_same: forall k NodeKey :: k in g.nodes ==> g.nodes[k].Dependencies == old(g.nodes[k].Dependencies)
+//@   loop 2
+//@     invariant deps_done: forall k NodeKey, i int :: k in g.edges && k in g.nodes && seen[k] ==> len(g.nodes[k].Dependencies) == len(g.edges[k])
+//@        && (0 <= i && i < len(g.edges[k]) ==> g.nodes[k].Dependencies[i] == g.edges[k][i])
+//@     invariant out_done: forall k NodeKey :: k in g.nodes ==> g.nodes[k].OutDegree == ite(k in g.edges && seen[k], len(g.edges[k]), 0)
+//@     invariant deps_same: forall k NodeKey :: k in g.nodes && !(k in g.edges && seen[k]) ==> g.nodes[k].Dependencies == old(g.nodes[k].Dependencies)
+//@     invariant indeg: forall k NodeKey :: k in g.nodes ==> g.nodes[k].InDegree == len(g.nodes[k].Dependents)
+//@     invariant dependents_sound: forall k NodeKey, i int :: k in g.nodes && 0 <= i && i < len(g.nodes[k].Dependents) ==>
+//@        (g.nodes[k].Dependents[i] in g.edges) && (g.nodes[k].Dependents[i] in g.nodes) && seen[g.nodes[k].Dependents[i]] && occurs(k, g.edges[g.nodes[k].Dependents[i]])
+//@     invariant dependents_complete: forall f NodeKey, i int :: f in g.edges && f in g.nodes && seen[f] && 0 <= i && i < len(g.edges[f]) && (g.edges[f][i] in g.nodes)
+//@        ==> occurs(f, g.nodes[g.edges[f][i]].Dependents)
+//@   loop 3
+//@     invariant deps_done: forall k NodeKey, i int :: k in g.edges && k in g.nodes && (seen[k] || k == from) ==> len(g.nodes[k].Dependencies) == len(g.edges[k])
+//@        && (0 <= i && i < len(g.edges[k]) ==> g.nodes[k].Dependencies[i] == g.edges[k][i])
+//@     invariant out_done: forall k NodeKey :: k in g.nodes ==> g.nodes[k].OutDegree == ite(k in g.edges && (seen[k] || k == from), len(g.edges[k]), 0)
+//@     invariant deps_same: forall k NodeKey :: k in g.nodes && !(k in g.edges && (seen[k] || k == from)) ==> g.nodes[k].Dependencies == old(g.nodes[k].Dependencies)
+//@     invariant indeg: forall k NodeKey :: k in g.nodes ==> g.nodes[k].InDegree == len(g.nodes[k].Dependents)
+//@     invariant dependents_sound: forall k NodeKey, i int :: k in g.nodes && 0 <= i && i < len(g.nodes[k].Dependents) ==>
+//@        (g.nodes[k].Dependents[i] in g.edges) && (g.nodes[k].Dependents[i] in g.nodes) && (seen[g.nodes[k].Dependents[i]] || g.nodes[k].Dependents[i] == from) && occurs(k, g.edges[g.nodes[k].Dependents[i]])
+//@     invariant dependents_complete_seen: forall f NodeKey, i int :: f in g.edges && f in g.nodes && seen[f] && 0 <= i && i < len(g.edges[f]) && (g.edges[f][i] in g.nodes)
+//@        ==> occurs(f, g.nodes[g.edges[f][i]].Dependents)
+//@     invariant dependents_complete_cur: forall i int :: 0 <= i && i < idx && (tos[i] in g.nodes) ==> occurs(from, g.nodes[tos[i]].Dependents)
+//@     invariant cur: from in g.edges && from in g.nodes && !seen[from] && tos == g.edges[from] && fromNode == g.nodes[from]
+//
+// filteredOf(a, b, t): as sets, a = b \ {t}
+//@ pred filteredOf(a []NodeKey, b []NodeKey, t NodeKey) = (forall i int :: 0 <= i && i < len(a) ==> a[i] != t && occurs(a[i], b))
+//@   && (forall i int :: 0 <= i && i < len(b) && b[i] != t ==> occurs(b[i], a))
+//
+//@ func DependencyGraph.RemoveProvider
+//@   requires wf: wf(g)
+//@   let tgt = mk("NodeKey", serviceType, key, group)
+//@   ensures[C19] absent_noop: !old(tgt in g.nodes) ==> g.nodes == old(g.nodes) && g.edges == old(g.edges)
+//@        && (forall j NodeKey :: ((j in g.nodes) <==> old(j in g.nodes)) && ((j in g.edges) <==> old(j in g.edges)) && g.edges[j] == old(g.edges[j]))
+//@        && g.sortedNodesDirty == old(g.sortedNodesDirty) && g.cycleCacheDirty == old(g.cycleCacheDirty)
+//@   ensures[C19] node_removed: old(tgt in g.nodes) ==> (forall j NodeKey :: (j in g.nodes) <==> (old(j in g.nodes) && j != tgt))
+//@   ensures[C19] edges_dom: old(tgt in g.nodes) ==> (forall j NodeKey :: (j in g.edges) <==> (old(j in g.edges) && j != tgt))
+//@   ensures[C19] edges_filtered: old(tgt in g.nodes) ==> (forall j NodeKey :: j in g.edges ==> filteredOf(g.edges[j], old(g.edges[j]), tgt))
+//@   ensures[C19] caches_invalidated: old(tgt in g.nodes) ==> g.sortedNodesDirty && g.cycleCacheDirty
+//@   ensures[C19] wf: wf(g)
+//@   loop 1
+//@     invariant maps: g.nodes == old(g.nodes) && g.edges == old(g.edges) && g.cycleCache == old(g.cycleCache) && nodeKey == tgt
+//@     invariant nodes_dom: forall j NodeKey :: (j in g.nodes) <==> (old(j in g.nodes) && j != tgt)
+//@     invariant edges_dom: forall j NodeKey :: (j in g.edges) <==> (old(j in g.edges) && j != tgt)
+//@     invariant done: forall j NodeKey :: j in g.edges && seen[j] ==> filteredOf(g.edges[j], old(g.edges[j]), tgt)
+//@     invariant todo: forall j NodeKey :: j in g.edges && !seen[j] ==> g.edges[j] == old(g.edges[j])
+//@     invariant s3: s3(g)
+//@   loop 2
+//@     invariant maps: g.nodes == old(g.nodes) && g.edges == old(g.edges) && nodeKey == tgt && !isnil(filtered)
+//@     invariant sound: forall i int :: 0 <= i && i < len(filtered) ==> filtered[i] != tgt && (exists j int :: 0 <= j && j < idx && edges[j] == filtered[i])
+//@     invariant complete: forall j int :: 0 <= j && j < idx && edges[j] != tgt ==> occurs(edges[j], filtered)
+//@     invariant flag: !modified ==> (len(filtered) == idx && (forall j int :: 0 <= j && j < idx ==> filtered[j] == edges[j]))
+//@   loop 4
+//@     invariant maps: g.nodes == old(g.nodes) && g.edges == old(g.edges) && g.cycleCache == old(g.cycleCache)
+//@     invariant s3: s3(g)
+//@   at after loop 2 : assert filt: filteredOf(filtered, edges, tgt)
+//@   at after loop 2 : assert unmodified: !modified ==> (forall i int :: 0 <= i && i < len(edges) ==> edges[i] != tgt)
+//@   at loop 1 end : assert cur_done: filteredOf(g.edges[k], old(g.edges[k]), tgt)
+//
+// mirror(g): the per-node Dependencies field is the edge list (derived state in step with E)
+//@ pred mirror(g *DependencyGraph) = forall k NodeKey, i int :: k in g.nodes ==>
+//@      ((k in g.edges) ==> len(g.nodes[k].Dependencies) == len(g.edges[k]) && (0 <= i && i < len(g.edges[k]) ==> g.nodes[k].Dependencies[i] == g.edges[k][i]))
+//@   && (!(k in g.edges) ==> len(g.nodes[k].Dependencies) == 0)
+//
+//@ func DependencyGraph.GetDependencies
+//@   requires wf: wf(g)
+//@   requires mirror: mirror(g)
+//@   let q = mk("NodeKey", serviceType, key, group)
+//@   ensures[C19] absent: !(q in g.nodes) ==> isnil(result)
+//@   ensures[C19] present_len: (q in g.nodes) ==> !isnil(result) && len(result) == ite(q in g.edges, len(g.edges[q]), 0)
+//@   ensures[C19] present_elems: forall i int :: (q in g.nodes) && (q in g.edges) && 0 <= i && i < len(g.edges[q]) ==> result[i] == g.edges[q][i]
+//
+//@ func DependencyGraph.GetDependents
+//@   requires wf: wf(g)
+//@   let q = mk("NodeKey", serviceType, key, group)
+//@   ensures[C19] absent: !(q in g.nodes) ==> isnil(result)
+//@   ensures[C19] present: (q in g.nodes) ==> !isnil(result) && len(result) == len(g.nodes[q].Dependents)
+//@        && (forall i int :: 0 <= i && i < len(result) ==> result[i] == g.nodes[q].Dependents[i])
+//
+// findCyclePath uses a recursive closure (outside the supported subset): its contract is ASSUMED (frame only) and
+// its result is checked by the bounded stand-in of C05 (see /verif/DESIGN.md).
+//@ func DependencyGraph.findCyclePath
+//@   nocheck
+//@   modifies alloc
+//
+//@ func DependencyGraph.detectCyclesFrom
+//@   requires maps: g != nil && g.nodes != nil && g.edges != nil && g.cycleCache != nil
+//@   modifies map[NodeKey]bool, CircularDependencyError.Node, CircularDependencyError.Path, alloc
+//@   safety[C15,C05]
+//@   ensures[C05] shape: result == nil || (typeis(result, "*CircularDependencyError") && as(result, "*CircularDependencyError") != nil && fresh(as(result, "*CircularDependencyError")))
+//@   loop 1
+//@     invariant maps: g.cycleCache != nil && visited != nil && visiting != nil && g.cycleCache == old(g.cycleCache)
+//
+//@ func DependencyGraph.DetectCycles
+//@   requires wf: wf(g)
+//@   modifies map[NodeKey]bool, CircularDependencyError.Node, CircularDependencyError.Path, alloc, Node.InDegree, Node.OutDegree, Node.Dependents, Node.Dependencies, Node.Visited, Node.Visiting, DependencyGraph.cycleCache, DependencyGraph.cycleCacheDirty
+//@   safety[C15,C05]
+//@   ensures[C05,C19] graph_unchanged: g.nodes == old(g.nodes) && g.edges == old(g.edges) && wf(g)
+//@   ensures[C05,C19] mirror: mirror(g) || !old(mirror(g))
+//@   ensures[C05] shape: result == nil || (typeis(result, "*CircularDependencyError") && as(result, "*CircularDependencyError") != nil)
+//@   ensures[C05,C19] cache_clean: !g.cycleCacheDirty
+//@   loop 2
+//@     invariant maps: g.nodes == old(g.nodes) && g.edges == old(g.edges) && g.cycleCache != nil && s3(g)
+//@   loop 3
+//@     invariant maps: g.nodes == old(g.nodes) && g.edges == old(g.edges) && g.cycleCache != nil && s3(g)
+//
+//@ func DependencyGraph.IsAcyclic
+//@   requires wf: wf(g)
+//@   modifies map[NodeKey]bool, CircularDependencyError.Node, CircularDependencyError.Path, alloc, Node.InDegree, Node.OutDegree, Node.Dependents, Node.Dependencies, Node.Visited, Node.Visiting, DependencyGraph.cycleCache, DependencyGraph.cycleCacheDirty
+//@   ensures[C05,C19] graph_unchanged: g.nodes == old(g.nodes) && g.edges == old(g.edges) && wf(g)
+//
+//@ func DependencyGraph.AddProvider
+//@   requires wf: wf(g)
+//@   requires deps_nonnil: forall i int :: 0 <= i && i < len(depsOf(provider)) ==> depsOf(provider)[i] != nil
+//@   safety[C15,C19]
+//@   ensures[C19] nil_rejected: provider == nil ==> result != nil && g.nodes == old(g.nodes) && g.edges == old(g.edges) && wf(g)
+//@   ensures[C19] node_added: provider != nil && result == nil ==> keyOf(provider) in g.nodes && g.nodes[keyOf(provider)].Provider == provider
+//@   ensures[C19] nodes_exact: provider != nil && result == nil ==> (forall j NodeKey :: j in g.nodes <==> (old(j in g.nodes) || j == keyOf(provider)
+//@        || (exists i int :: 0 <= i && i < len(depsOf(provider)) && j == depKey(depsOf(provider)[i]))))
+//@   ensures[C19] edges_set: provider != nil && result == nil ==> keyOf(provider) in g.edges
+//@        && len(g.edges[keyOf(provider)]) == len(depsOf(provider))
+//@        && (forall i int :: 0 <= i && i < len(depsOf(provider)) ==> g.edges[keyOf(provider)][i] == depKey(depsOf(provider)[i]))
+//@   ensures[C19] other_edges_kept: forall j NodeKey :: provider != nil && j != keyOf(provider) ==> ((j in g.edges) <==> old(j in g.edges)) && g.edges[j] == old(g.edges[j])
+//@   ensures[C19] caches_invalidated: provider != nil ==> g.sortedNodesDirty && g.cycleCacheDirty
+//@   ensures[C19] wf_on_success: provider != nil && result == nil ==> wf(g)
+//@   ensures[C19] mirror_on_success: provider != nil && result == nil && old(mirror(g)) ==> mirror(g)
+//@   ensures[C19] rejected_nodes_unchanged: provider != nil && result != nil ==> (forall j NodeKey :: (j in g.nodes) <==> old(j in g.nodes))
+//@   ensures[C19] rejected_edges_unchanged: provider != nil && result != nil ==> (forall j NodeKey :: ((j in g.edges) <==> old(j in g.edges)) && g.edges[j] == old(g.edges[j]))
+//@   ensures[C19] rejected_wf: provider != nil && result != nil ==> wf(g)
+//@   loop 1
+//@     invariant len_deps: len(dependencies) == idx && !isnil(dependencies)
+//@     invariant deps_prefix: forall i int :: 0 <= i && i < idx ==> dependencies[i] == depKey(providerDeps[i])
+//@     invariant nodes_grow: forall j NodeKey :: old(j in g.nodes) ==> j in g.nodes
+//@     invariant self_in: nodeKey in g.nodes && g.nodes[nodeKey] == node && g.nodes != nil && g.nodes == old(g.nodes)
+//@     invariant deps_in: forall i int :: 0 <= i && i < idx ==> depKey(providerDeps[i]) in g.nodes
+//@     invariant nodes_only: forall j NodeKey :: j in g.nodes ==> (old(j in g.nodes) || j == nodeKey
+//@        || (exists i int :: 0 <= i && i < idx && j == depKey(providerDeps[i])))
+//@     invariant s3: s3(g)
+//@     invariant provider_set: node.Provider == provider
+//@     invariant mirror_others: forall j NodeKey :: j in g.nodes && !old(j in g.nodes) && j != nodeKey ==> len(g.nodes[j].Dependencies) == 0
+//@     invariant old_deps_kept: forall j NodeKey :: old(j in g.nodes) && j != nodeKey ==> g.nodes[j] == old(g.nodes[j]) && g.nodes[j].Dependencies == old(g.nodes[j].Dependencies)
+//
+//@ pred occursN(p *Node, s []*Node) = exists i int :: 0 <= i && i < len(s) && s[i] == p
+//
+//@ func DependencyGraph.GetRoots
+//@   requires wf: wf(g)
+//@   ensures[C19] sound: forall i int :: 0 <= i && i < len(result) ==> result[i] != nil && result[i].InDegree == 0 && (result[i].Key in g.nodes) && g.nodes[result[i].Key] == result[i]
+//@   ensures[C19] complete: forall k NodeKey :: k in g.nodes && g.nodes[k].InDegree == 0 ==> occursN(g.nodes[k], result)
+//@   ensures[C19] unchanged: g.nodes == old(g.nodes) && g.edges == old(g.edges) && wf(g)
+//@   loop 1
+//@     invariant sound: !isnil(roots) && (forall i int :: 0 <= i && i < len(roots) ==> roots[i] != nil && roots[i].InDegree == 0 && (roots[i].Key in g.nodes) && g.nodes[roots[i].Key] == roots[i] && seen[roots[i].Key])
+//@     invariant complete: forall k NodeKey :: k in g.nodes && seen[k] && g.nodes[k].InDegree == 0 ==> occursN(g.nodes[k], roots)
+//
+//@ func DependencyGraph.GetLeaves
+//@   requires wf: wf(g)
+//@   ensures[C19] sound: forall i int :: 0 <= i && i < len(result) ==> result[i] != nil && result[i].OutDegree == 0 && (result[i].Key in g.nodes) && g.nodes[result[i].Key] == result[i]
+//@   ensures[C19] complete: forall k NodeKey :: k in g.nodes && g.nodes[k].OutDegree == 0 ==> occursN(g.nodes[k], result)
+//@   ensures[C19] unchanged: g.nodes == old(g.nodes) && g.edges == old(g.edges) && wf(g)
+//@   loop 1
+//@     invariant sound: !isnil(leaves) && (forall i int :: 0 <= i && i < len(leaves) ==> leaves[i] != nil && leaves[i].OutDegree == 0 && (leaves[i].Key in g.nodes) && g.nodes[leaves[i].Key] == leaves[i] && seen[leaves[i].Key])
+//@     invariant complete: forall k NodeKey :: k in g.nodes && seen[k] && g.nodes[k].OutDegree == 0 ==> occursN(g.nodes[k], leaves)
